@@ -225,7 +225,99 @@ def _namedtuple_fields(repo, module, cls):
     return None
 
 
+_ENUM_BASES = ("enum.Enum", "enum.IntEnum", "enum.StrEnum", "enum.Flag", "enum.IntFlag")
+_ENUM_MEMBERS = {}
+
+
+def _enum_members(repo, module, cls):
+    """the members (in definition order) of `class X(Enum): A = v; B = w`; None when the class is no enumeration.
+    Members are instances carrying name / value; a repeated value is an alias of the first member holding it."""
+    is_enum = False
+    for b in cls.bases:
+        q = None
+        if isinstance(b, ast.Name):
+            r = repo.resolve(module, b.id)
+            q = r.qualname if r is not None else None
+        elif isinstance(b, ast.Attribute) and isinstance(b.value, ast.Name):
+            r = repo.resolve(module, b.value.id)
+            q = (r.qualname + "." + b.attr) if r is not None else None
+        if q in _ENUM_BASES:
+            is_enum = True
+    if not is_enum:
+        return None
+    key = (id(repo), module.name, cls.name)
+    if key in _ENUM_MEMBERS:
+        return _ENUM_MEMBERS[key]
+    members = []
+    by_name = {}
+    for st in cls.body:
+        if isinstance(st, ast.Assign) and len(st.targets) == 1 and isinstance(st.targets[0], ast.Name) and not st.targets[0].id.startswith("_"):
+            val = _Interp(repo, module, {}, 1).expr(st.value)
+            first = next((m for m in members if m.attrs["value"] == val), None)
+            if first is None:
+                first = Obj(module, cls, {"name": st.targets[0].id, "value": val, "_name_": st.targets[0].id, "_value_": val})
+                members.append(first)
+            by_name[st.targets[0].id] = first
+    _ENUM_MEMBERS[key] = (members, by_name)
+    return _ENUM_MEMBERS[key]
+
+
+def _typed_record(repo, module, cls):
+    """(field names, {field: default expression}) of `class X(typing.NamedTuple): a: T; b: T = d`, else None"""
+    typed = False
+    for b in cls.bases:
+        q = None
+        if isinstance(b, ast.Name):
+            r = repo.resolve(module, b.id)
+            q = r.qualname if r is not None else None
+        elif isinstance(b, ast.Attribute) and isinstance(b.value, ast.Name):
+            r = repo.resolve(module, b.value.id)
+            q = (r.qualname + "." + b.attr) if r is not None else None
+        if q == "typing.NamedTuple":
+            typed = True
+    if not typed:
+        return None
+    fields, defaults = [], {}
+    for st in cls.body:
+        if isinstance(st, ast.AnnAssign) and isinstance(st.target, ast.Name):
+            fields.append(st.target.id)
+            if st.value is not None:
+                defaults[st.target.id] = st.value
+    return fields, defaults
+
+
 def instantiate(repo, module, cls, args=(), kwargs=None, depth=0):
+    en = _enum_members(repo, module, cls)
+    if en is not None:
+        # Color(value): the member holding the value, ValueError otherwise
+        if len(args) != 1 or kwargs:
+            raise Raised("TypeError", "%s() arguments" % cls.name)
+        for m_ in en[0]:
+            if m_ is args[0] or (not isinstance(args[0], Obj) and m_.attrs["value"] == args[0]):
+                return m_
+        raise Raised("ValueError", "%r is not a valid %s" % (args[0], cls.name))
+    tr = _typed_record(repo, module, cls)
+    if tr is not None:
+        fields, defaults = tr
+        kw = dict(kwargs or {})
+        vals = list(args)
+        if len(vals) > len(fields) or any(k not in fields[len(vals):] for k in kw):
+            raise Raised("TypeError", "%s() arguments" % cls.name)
+        for f_ in fields[len(vals):]:
+            if f_ in kw:
+                vals.append(kw[f_])
+            elif f_ in defaults:
+                vals.append(_Interp(repo, module, {}, depth + 1).expr(defaults[f_]))
+            else:
+                raise Raised("TypeError", "%s() missing %s" % (cls.name, f_))
+        if not any(isinstance(st, ast.FunctionDef) for st in cls.body):
+            # a plain typed record: the standard namedtuple (unpacks, indexes, compares like a tuple)
+            return _record_type(cls.name, tuple(fields))(*vals)
+        obj = Obj(module, cls)
+        for f_, v_ in zip(fields, vals):
+            obj.attrs[f_] = v_
+        obj.attrs["__fields__"] = tuple(fields)
+        return obj
     obj = Obj(module, cls)
     fields = _namedtuple_fields(repo, module, cls)
     if fields is not None and not any(isinstance(st, ast.FunctionDef) and st.name in ("__init__", "__new__") for m, c in _mro(repo, module, cls) for st in c.body):
@@ -531,6 +623,10 @@ class _Interp(object):
 
     def iterate(self, v):
         """the values an iteration over v produces (an instance with __iter__ / __next__ is driven until StopIteration)"""
+        if isinstance(v, FuncRef) and isinstance(v.node, ast.ClassDef):
+            en = _enum_members(self.repo, v.module, v.node)
+            if en is not None:
+                return list(en[0])
         if isinstance(v, Obj) and "__fields__" in v.attrs:
             try:
                 _class_member(self.repo, v, "__iter__")
@@ -689,6 +785,13 @@ class _Interp(object):
                 base = self.expr(n.value)
             except Unknown:
                 base = None
+            if isinstance(base, FuncRef) and isinstance(base.node, ast.ClassDef):
+                en = _enum_members(self.repo, base.module, base.node)
+                if en is not None:
+                    if n.attr in en[1]:
+                        return en[1][n.attr]
+                    if n.attr == "__members__":
+                        return dict(en[1])
             if isinstance(base, FuncRef) and base.node is None and base.module is not None:
                 # a member of a sub-module of the package imported by name (`from ural import patterns` ... patterns.PROTOCOL_RE)
                 return _Interp(self.repo, base.module, {}, self.depth).expr(ast.Name(id=n.attr, ctx=ast.Load()))
@@ -707,6 +810,13 @@ class _Interp(object):
                     return getattr(base, n.attr)
                 except ValueError:
                     raise Raised("ValueError")
+            if isinstance(base, _re_Match) and n.attr in ("string", "pos", "endpos", "lastindex", "lastgroup"):
+                return getattr(base, n.attr)
+            if isinstance(base, _re_Match) and n.attr == "re":
+                return Regex(base.re.pattern, base.re.flags, None, self.module)
+            if isinstance(base, Regex) and n.attr in ("pattern", "flags", "groups"):
+                import re as _re
+                return getattr(_re.compile(base.pattern, base.flags), n.attr)
             if isinstance(base, _CONTAINERS) and n.attr in _PURE_METHODS.get(type(base), ()):
                 # a bound built-in method taken as a value: append = res.extend
                 return Native(getattr(base, n.attr))
@@ -845,6 +955,11 @@ class _Interp(object):
                     if isinstance(base, (dict, _co.ChainMap)) and f.attr in ("items", "keys", "values"):
                         return list(r)
                     return r
+                if isinstance(base, int) and not isinstance(base, bool) and f.attr in ("to_bytes", "bit_length"):
+                    try:
+                        return getattr(base, f.attr)(*args, **kwargs)
+                    except Exception as e:
+                        raise Raised(type(e).__name__)
                 if isinstance(base, Regex) and f.attr in ("split", "findall", "subn"):
                     import re as _re
                     try:
